@@ -12,5 +12,5 @@ cd /verif
 mkdir -p /tmp/mut_ev_$$
 for c in "$@"; do
   PYTHONPATH="$WT" VERIF_STOP_ON_FAIL=1 VERIF_EVIDENCE_DIR=/tmp/mut_ev_$$ ./run_check.sh $c ${TIER:-quick} > /tmp/mut_ev_$$/$c.log 2>&1; rc=$?
-  echo "$c rc=$rc violations=$(grep -c '^VIOLATION' /tmp/mut_ev_$$/$c.log) $(grep -A1 '^VIOLATION' /tmp/mut_ev_$$/$c.log | grep signature | head -3 | tr '\n' ' ' | cut -c1-260)"
+  echo "$c rc=$rc violations=$(grep -c '^VIOLATION' /tmp/mut_ev_$$/$c.log) $(grep -o 'exhaustive=[A-Za-z]* violations' /tmp/mut_ev_$$/$c.log | tail -1 | cut -d' ' -f1) $(grep -A1 '^VIOLATION' /tmp/mut_ev_$$/$c.log | grep signature | head -3 | tr '\n' ' ' | cut -c1-260)"
 done
